@@ -14,6 +14,7 @@ ASSUMPTIONS = [
     "rainfall of a day is taken from the harness's own copy of the weather table by date, not from the model's matrix",
     "applied irrigation = reported IrrDay x AppEff/100 for strategies 1,2,3,5 (0 for rainfed and net irrigation)",
     "generator keeps the effective curve number <= 100 (the property's stated domain)",
+    "'the day bunds are removed' is read as: the bund height in force today (0 without bunds) is below the water ponded at the start of the day -- this includes bunds replaced by LOWER ones when the season / fallow management takes over; infiltration may then be negative by at most the water above the new height",
     "tolerance 1e-9 relative to max(1, rain + irrigation)",
 ]
 BUDGET = {"quick": 320, "thorough": 6000}
@@ -58,17 +59,23 @@ def evaluate(cfg):
         i = int(np.argmax(bad))
         res.fail("runoff_bounds", "step %d (%s): Runoff %.6g outside [0, rain %.6g + irrigation %.6g + ponded %.6g]" % (
             i, tr.date[i].date(), ro[i], P[i], A[i], pond0[i]))
-    removed = 0
+    removed = lowered = 0
     for i in range(n):
         fm = field_mgmt_for(tr, i)
-        released = pond0[i] > 0 and not bunds_effective(fm)
-        lo = -pond0[i] if released else 0.0
+        zb = float(fm.z_bund) if bunds_effective(fm) else 0.0
+        # ponded water above the bund height in force today is released as runoff: bunds removed (height 0)
+        # or replaced by lower ones when the season / fallow management takes over
+        released = max(0.0, pond0[i] - zb)
+        lo = -released
         if infl[i] < lo - 1e-9 * scale[i]:
-            res.fail("infl_negative", "step %d (%s): Infl %.6g < %.6g (ponded at start %.6g, bunds today %s)" % (
-                i, tr.date[i].date(), infl[i], lo, pond0[i], bunds_effective(fm)))
+            res.fail("infl_negative", "step %d (%s): Infl %.6g < %.6g (ponded at start %.6g, bund height in force today %.6g)" % (
+                i, tr.date[i].date(), infl[i], lo, pond0[i], zb))
             break
-        if released:
-            removed += 1
+        if released > 0:
+            if zb == 0:
+                removed += 1
+            else:
+                lowered += 1
         if P[i] == 0 and A[i] == 0 and pond0[i] == 0 and (abs(infl[i]) > 1e-12 or abs(ro[i]) > 1e-12):
             res.fail("nothing_in", "step %d (%s): no rain, irrigation or ponding but Infl %.3g Runoff %.3g" % (
                 i, tr.date[i].date(), infl[i], ro[i]))
@@ -84,6 +91,8 @@ def evaluate(cfg):
         L.add("storm>=100mm")
     if removed:
         L.add("bunds_removed_day")
+    if lowered:
+        L.add("bunds_lowered_day")
     if (infl < 0).any():
         L.add("negative_infl_day")
     for key in ("fm", "ffm"):
